@@ -84,4 +84,6 @@ def main(tier):
     tbladvance.check(rep, 'EC', {'ec_dot_prod'}, 150)
     import eclayout
     eclayout.check(rep, 'EC', ['ec_encode_data_base', 'gf_vect_dot_prod_base'], 3, writer=True)
+    import stridecover
+    stridecover.check(rep, 'EC', {'ec_dot_prod'}, 400)
     return rep.finish()
